@@ -12,10 +12,10 @@ func init() {
 	register(&propertyDef{
 		id:    "C15",
 		title: "optional, one-of and or-disabled inputs mean what their tags say",
-		rules: []ruleFunc{c15R1, c15R2, c15R3, c15Shared},
+		rules: []ruleFunc{c15R1, c15R2, c15R3, c15Shared, c15R7},
 		decided: "the tag table of the YAML conversion: each tag dispatches to its builder, !soft-optional -> WaitForCompletion=false, !wait-optional -> true, !ordisabled -> one-of with discriminator `result`, option `enabled` = the given expression, option `disabled` = <step path>.disabled.output, !oneof requires `discriminator` and `one_of` (R1); " +
 			"run-time selection: an optional value is absent exactly when its group node is not among the parent's resolved dependencies and is otherwise the evaluation of its expression, absent values are dropped from maps; a one-of takes the option named by a resolved dependency of type Or, with the discriminator set to that option id, and the writer and reader of option node ids use the same separator (R2); " +
-			"group node ids are derived from the consumer node id and the path of the tagged field, which grows at every nesting level (R3); tags map to their dependency kinds (C10.R2) and all walkers know the three kinds (C02.R1); a step accounts for every And-successor of a finished stage, so `disabled` is always finished or impossible once enabling finished (R6 = C12.R9).",
+			"group node ids are derived from the consumer node id and the path of the tagged field, which grows at every nesting level (R3); tags map to their dependency kinds (C10.R2) and all walkers know the three kinds (C02.R1); a step accounts for every And-successor of a finished stage, so `disabled` is always finished or impossible once enabling finished (R6 = C12.R9). The stage-failure handler marks the stage node and all output nodes of the failed stage (R7); the discriminator is the last write into a one-of value (R2).",
 		notDecided: "presence/absence as a function of the source's outcome and of event order (dgraph semantics and schedules).",
 	})
 }
@@ -355,6 +355,23 @@ func c15R2(c *Ctx) {
 				}
 			}
 		})
+		// the discriminator is the LAST write into the result: a field of the alternative with the same name must not replace it
+		var discStore *ssa.MapUpdate
+		eachInstr(fn, func(r instrRef) {
+			if mu, ok := r.I.(*ssa.MapUpdate); ok && loadedField(mu.Key) == discF {
+				discStore = mu
+			}
+		})
+		if discStore == nil {
+			c.bad(rule, "oneof-discriminator-last", c.pos(fn.Pos()), "resolveOneOfExpression never stores the discriminator")
+		} else {
+			p := c.findPath(fn, discStore, func(ssa.Instruction) bool { return false }, func(in ssa.Instruction) bool {
+				mu, ok := in.(*ssa.MapUpdate)
+				return ok && in != ssa.Instruction(discStore) && (mu.Map == discStore.Map || derivesFrom(mu.Map, isValue(discStore.Map)) || derivesFrom(discStore.Map, isValue(mu.Map)))
+			})
+			c.verdict(p == nil, rule, "oneof-discriminator-last", c.instrPos(discStore), "nothing is written into the one-of value after its discriminator",
+				"fields of the chosen alternative are copied into the one-of value AFTER the discriminator was stored: an alternative that has a field named like the discriminator overwrites it, and the value no longer names the alternative it carries", p...)
+		}
 		c.verdict(orTest && stripOK && discOK, rule, "oneof-selection", c.pos(fn.Pos()), "option chosen by a resolved Or dependency; discriminator = option id",
 			fmt.Sprintf("one-of selection broken (or-dependency-test=%v strips-NodePath-dot=%v discriminator-is-option-id=%v)", orTest, stripOK, discOK))
 	}
@@ -454,4 +471,37 @@ func c15Shared(c *Ctx) {
 		}
 	}
 	c.Obligations = kept
+}
+
+// C15.R7 a stage declared impossible fails its stage node AND its output nodes.
+// Tagged fields may refer to a whole stage ($.steps.x.outputs) or to one output; the first depends on the stage node, the
+// second on an output node. The stage-failure handler must mark both kinds unresolvable, unconditionally, before it
+// notifies — otherwise a !wait-optional / !oneof / !ordisabled alternative on the other kind never finishes either way.
+func c15R7(c *Ctx) {
+	const rule = "C15.R7"
+	c.explain("C15.R7 in the stage-failure handler (the function stored as onStepStageFailure): on every path from entry to the notification both markOutputsUnresolvable and markStageNodeUnresolvable are called for the failed stage")
+	hf := c.field(pkgWorkflow, "stageChangeHandler", "onStepStageFailure")
+	markOut := c.Fn("(*workflow.loopState).markOutputsUnresolvable")
+	markStage := c.Fn("(*workflow.loopState).markStageNodeUnresolvable")
+	notify := c.Fn("(*workflow.loopState).notifySteps")
+	if hf == nil || markOut == nil || markStage == nil || notify == nil {
+		return
+	}
+	n := 0
+	for _, h := range c.CG().fieldFuncs[hf] {
+		n++
+		key := "stage-failure-marks@" + c.fnName(h)
+		calls := func(f *ssa.Function) func(ssa.Instruction) bool {
+			return func(in ssa.Instruction) bool {
+				call, ok := in.(*ssa.Call)
+				return ok && call.Common().StaticCallee() == f
+			}
+		}
+		end := func(in ssa.Instruction) bool { return isReturn(in) || calls(notify)(in) }
+		p1 := c.findPath(h, nil, calls(markOut), end)
+		p2 := c.findPath(h, nil, calls(markStage), end)
+		c.verdict(p1 == nil && p2 == nil, rule, key, c.pos(h.Pos()), "output nodes and stage node are both marked on every path before the notification",
+			"a stage can be declared impossible without marking its stage node (or its output nodes) unresolvable: fields that refer to the whole stage (or to one output) then never finish one way or the other", append(p1, p2...)...)
+	}
+	c.minCount(rule, "stage-failure handlers", n, 1)
 }
